@@ -192,46 +192,15 @@ func elemType(c *core.Ctx, t *tmpl.Template, elem string) string {
 }
 
 func checkReserve(c *core.Ctx, l *core.Ledger) {
-	appendDecl := c.SSAFunc(c.LookupFunc("gen", "generator.appendDecl"))
-	declare := c.SSAFunc(c.LookupFunc("gen", "generator.declare"))
-	if appendDecl == nil || declare == nil {
-		l.Unk("RESERVE", "anchor", "", "generator.appendDecl / generator.declare not found")
-		return
+	// the places where the generator's declaration list grows: stores of append(g.decls, ...) into g.decls.
+	// A function that does nothing else (a one-line appender) is represented by its call sites.
+	type site struct {
+		in ssa.Instruction
+		f  *ssa.Function
 	}
-	sites := c.StaticCallSites(appendDecl)
-	for i, s := range sites {
-		if c.IsTestFile(s.Pos()) {
-			continue
-		}
-		key := fmt.Sprintf("%s:appendDecl#%d", core.SSAName(s.Parent()), i+1)
-		if s.Parent() != declare {
-			l.Bad("RESERVE", key, c.Rel(s.Pos()), "a declaration is appended outside generator.declare, bypassing name reservation")
-			continue
-		}
-		isRes := func(call *ssa.Call) bool {
-			if call.Call.IsInvoke() && call.Call.Method.Name() == "Reserve" {
-				return true
-			}
-			cal := call.Call.StaticCallee()
-			return cal != nil && (cal.Name() == "Reserve" || cal.Name() == "recordGenDeclNames")
-		}
-		edges := successEdges(declare, isRes)
-		// declarations that are neither functions nor general declarations carry no name
-		for _, b := range declare.Blocks {
-			if ifi, ok := b.Instrs[len(b.Instrs)-1].(*ssa.If); ok {
-				if ex, ok := ifi.Cond.(*ssa.Extract); ok && ex.Index == 1 {
-					if ta, ok := ex.Tuple.(*ssa.TypeAssert); ok && strings.HasSuffix(ta.AssertedType.String(), "ast.GenDecl") {
-						edges = append(edges, core.Edge{From: b, To: b.Succs[1]})
-					}
-				}
-			}
-		}
-		l.Check(core.AllPathsThroughEdges(declare, s.Block(), edges), "RESERVE", key, c.Rel(s.Pos()), "reached only after the declaration's names were reserved successfully (a conflict either aborts or, for EnsureDeclared, skips the declaration)",
-			"a declaration can be appended without its name having been reserved: duplicate top-level names reach the output")
-	}
-	// the decls slice is only appended in appendDecl
+	var sites []site
 	for _, f := range c.AllFuncs("gen") {
-		if c.IsTestFile(f.Pos()) {
+		if c.IsTestFile(f.Pos()) || len(f.Blocks) == 0 {
 			continue
 		}
 		core.Instrs(f, func(in ssa.Instruction) {
@@ -240,16 +209,56 @@ func checkReserve(c *core.Ctx, l *core.Ledger) {
 				return
 			}
 			fa, ok := st.Addr.(*ssa.FieldAddr)
-			if !ok || core.FieldOf(fa).Name() != "decls" {
+			if !ok || core.FieldOf(fa) == nil || core.FieldOf(fa).Name() != "decls" {
 				return
 			}
 			if k, isC := st.Val.(*ssa.Const); isC && k.IsNil() {
 				return // reset after writing
 			}
-			l.Check(f == appendDecl, "RESERVE", core.SSAName(f)+":decls-store", c.Rel(st.Pos()), "the declaration list grows only in appendDecl", "the declaration list is modified outside appendDecl")
+			if !strings.HasPrefix(core.Sym(st.Val), "append(") {
+				l.Bad("RESERVE", core.SSAName(f)+":decls-store", c.Rel(st.Pos()), "the declaration list is overwritten rather than appended to")
+				return
+			}
+			if len(f.Blocks) == 1 && len(f.Params) == 2 {
+				// a bare appender: its callers are the sites
+				for _, cs := range c.StaticCallSites(f) {
+					if !c.IsTestFile(cs.Pos()) {
+						sites = append(sites, site{cs, cs.Parent()})
+					}
+				}
+				return
+			}
+			sites = append(sites, site{in, f})
 		})
 	}
-	l.Floor("RESERVE", 2)
+	if len(sites) == 0 {
+		l.Unk("RESERVE", "anchor", "", "no place found where the generator's declaration list grows")
+		return
+	}
+	isRes := func(call *ssa.Call) bool {
+		if call.Call.IsInvoke() && call.Call.Method.Name() == "Reserve" {
+			return true
+		}
+		cal := call.Call.StaticCallee()
+		return cal != nil && (cal.Name() == "Reserve" || cal.Name() == "recordGenDeclNames")
+	}
+	for i, s := range sites {
+		key := fmt.Sprintf("%s:append-decl#%d", core.SSAName(s.f), i+1)
+		edges := successEdges(s.f, isRes)
+		// declarations that are neither functions nor general declarations carry no name
+		for _, b := range s.f.Blocks {
+			if ifi, ok := b.Instrs[len(b.Instrs)-1].(*ssa.If); ok {
+				if ex, ok := ifi.Cond.(*ssa.Extract); ok && ex.Index == 1 {
+					if ta, ok := ex.Tuple.(*ssa.TypeAssert); ok && strings.HasSuffix(ta.AssertedType.String(), "ast.GenDecl") {
+						edges = append(edges, core.Edge{From: b, To: b.Succs[1]})
+					}
+				}
+			}
+		}
+		l.Check(len(edges) > 0 && core.AllPathsThroughEdges(s.f, s.in.Block(), edges), "RESERVE", key, c.Rel(s.in.Pos()), "reached only after the declaration's names were reserved successfully (a conflict either aborts or, for EnsureDeclared, skips the declaration)",
+			"a declaration can be appended without its name having been reserved: duplicate top-level names reach the output")
+	}
+	l.Floor("RESERVE", 1)
 }
 
 // inplaceSites finds "p[:0]" of a slice parameter feeding an append.
